@@ -4,6 +4,7 @@ import (
 	"fmt"
 	"go/token"
 	"go/types"
+	"sort"
 	"strings"
 
 	"golang.org/x/tools/go/ssa"
@@ -128,7 +129,7 @@ func runC06(c *engine.Ctx) {
 	engine.ForEachInstr(get, func(in ssa.Instruction) {
 		if ia, ok := in.(*ssa.IndexAddr); ok {
 			// index-based range over a slice obtained from a map lookup
-			src := engine.Provenance(ia.X, engine.ProvOpts{})
+			src := engine.Provenance(ia.X, engine.ProvOpts{IntoCallee: true, Prog: p})
 			if src.HasField(idxF) && src.HasParam("httpUser") {
 				// a `for range` over the slice: go/ssa's rangeindex induction variable (-1, +1 per iteration)
 				idx := ia.Index
@@ -158,7 +159,49 @@ func runC06(c *engine.Ctx) {
 		}
 		return false
 	}
-	for _, f := range []*ssa.Function{add, del, get} {
+	// a value is "lowered" if ToLower is in its provenance, or if it is a parameter of an unexported method all of
+	// whose call sites pass a lowered value (the index access was extracted into a helper)
+	var loweredAt func(f *ssa.Function, v ssa.Value, depth int) bool
+	loweredAt = func(f *ssa.Function, v ssa.Value, depth int) bool {
+		if lowered(v) {
+			return true
+		}
+		pr, ok := engine.Unwrap(v).(*ssa.Parameter)
+		if !ok || depth > 2 {
+			return false
+		}
+		fo, _ := f.Object().(*types.Func)
+		if fo == nil || fo.Exported() {
+			return false
+		}
+		idx := -1
+		for i, q := range f.Params {
+			if q == pr {
+				idx = i
+			}
+		}
+		sites := 0
+		for _, g := range p.RepoFuncs() {
+			for _, cs := range engine.CallsTo(g, fo) {
+				sites++
+				args := engine.CallArgs(cs)
+				if idx < 0 || idx >= len(args) || !loweredAt(g, args[idx], depth+1) {
+					return false
+				}
+			}
+		}
+		return sites > 0
+	}
+	routersT := p.Named("pkg/util/vhost", "Routers")
+	var methods []*ssa.Function
+	if routersT != nil {
+		for _, mf := range methodsOf(p, routersT) {
+			methods = append(methods, mf)
+		}
+	}
+	sort.Slice(methods, func(i, j int) bool { return methods[i].Name() < methods[j].Name() })
+	for _, f := range methods {
+		f := f
 		engine.ForEachInstr(f, func(in ssa.Instruction) {
 			var m, idx ssa.Value
 			what := ""
@@ -171,9 +214,9 @@ func runC06(c *engine.Ctx) {
 				if b, ok := x.Common().Value.(*ssa.Builtin); ok && b.Name() == "delete" {
 					m, idx, what = x.Common().Args[0], x.Common().Args[1], "delete"
 				}
-				if engine.IsCallTo(in, existObj) {
+				if engine.IsCallTo(in, existObj) && f != exist {
 					n++
-					c.Check(lowered(engine.CallArgs(x)[1]), p.FuncName(f)+">exist-arg", in.Pos(), 1, nil,
+					c.Check(loweredAt(f, engine.CallArgs(x)[1], 0), p.FuncName(f)+">exist-arg", in.Pos(), 1, nil,
 						"the duplicate test is made with the lower-cased host (otherwise App.Example.com and app.example.com both register and collide in the index)")
 				}
 			}
@@ -184,7 +227,7 @@ func runC06(c *engine.Ctx) {
 				return
 			}
 			n++
-			c.Check(lowered(idx), fmt.Sprintf("%s>%s#%d", p.FuncName(f), what, n), in.Pos(), 1, nil, "host index %s uses the lower-cased host", what)
+			c.Check(loweredAt(f, idx, 0), fmt.Sprintf("%s>%s#%d", p.FuncName(f), what, n), in.Pos(), 1, nil, "host index %s uses the lower-cased host", what)
 		})
 	}
 	c.Floor(n, 5)
